@@ -262,6 +262,10 @@ def run(ctx):
     vlib.model_check(ctx, "MC_ReceiverReport.tla", vlib.cfg_variant(ctx, "MC_ReceiverReport.cfg", {"MaxSteps": a}), timeout=3000)
     vlib.model_check(ctx, "MC_ReceiverReport.tla", vlib.cfg_variant(ctx, "MC_ReceiverReport_jitter.cfg", {"MaxSteps": b}),
                      timeout=3000)
+    vlib.model_check(ctx, "MC_ReceiverReport.tla", "MC_ReceiverReport_asfound.cfg", workers=2,
+                     expect_violation="Invariant AsFoundAlways is violated",
+                     note="negative control: beyond the history the ring of the code (as-found model) counts differently from the "
+                          "property - the recorded finding is reachable, and only there")
     vlib.model_check(ctx, "MC_ReceiverReport.tla", "MC_ReceiverReport_reach.cfg",
                      expect_violation="Invariant ReachSaturated is violated",
                      note="negative control: the saturation of the cumulative counter is reachable in the model")
